@@ -8,6 +8,7 @@
 #include <algorithm>
 #include <regex>
 
+#include <opentelemetry/sdk/metrics/aggregation/aggregation_config.h>
 #include <opentelemetry/sdk/metrics/view/attributes_processor.h>
 #include <opentelemetry/sdk/metrics/view/instrument_selector.h>
 #include <opentelemetry/sdk/metrics/view/meter_selector.h>
@@ -28,38 +29,49 @@ struct Inst {
   const char *name, *unit, *desc;
   int value;  // the one measurement; distinct per instrument so that a stream names its source
 };
-const Inst kInst[4] = {
-    {0, sm::InstrumentType::kCounter, "abc", "ms", "d0", 3},
-    {0, sm::InstrumentType::kHistogram, "axy", "", "d1", 5},
-    {1, sm::InstrumentType::kCounter, "abc", "ms", "d2", 11},
-    {1, sm::InstrumentType::kObservableGauge, "aobs", "ms", "d3", 13},
+constexpr int kNumInst = 7;
+const Inst kInst[kNumInst] = {
+    {0, sm::InstrumentType::kCounter, "abc", "ms", "d0", 3},                  // UInt64Counter
+    {0, sm::InstrumentType::kHistogram, "axy", "", "d1", 5},                  // DoubleHistogram
+    {1, sm::InstrumentType::kCounter, "abc", "ms", "d2", 11},                 // UInt64Counter
+    {1, sm::InstrumentType::kObservableGauge, "aobs", "ms", "d3", 13},        // Int64ObservableGauge
+    {1, sm::InstrumentType::kUpDownCounter, "axy", "", "d4", 17},             // Int64UpDownCounter; the name of the other meter's histogram
+    {0, sm::InstrumentType::kObservableCounter, "abd", "ms", "d5", 19},       // Int64ObservableCounter
+    {1, sm::InstrumentType::kObservableUpDownCounter, "aud", "s", "d6", 23},  // DoubleObservableUpDownCounter; the only unit 's'
 };
-bool is_async(const Inst &i) { return i.type == sm::InstrumentType::kObservableGauge; }
+bool is_async(const Inst &i) {
+  return i.type == sm::InstrumentType::kObservableGauge || i.type == sm::InstrumentType::kObservableCounter || i.type == sm::InstrumentType::kObservableUpDownCounter;
+}
 
 // ---- selector / view alphabet -------------------------------------------------------------------------
-const sm::InstrumentType kTypes[] = {sm::InstrumentType::kCounter, sm::InstrumentType::kHistogram, sm::InstrumentType::kObservableGauge, sm::InstrumentType::kUpDownCounter};
-const char *const kTypeName[] = {"Counter", "Histogram", "ObservableGauge", "UpDownCounter"};
+constexpr int kNumTypes = 6;
+const sm::InstrumentType kTypes[kNumTypes] = {sm::InstrumentType::kCounter, sm::InstrumentType::kHistogram, sm::InstrumentType::kObservableGauge, sm::InstrumentType::kUpDownCounter,
+                                              sm::InstrumentType::kObservableCounter, sm::InstrumentType::kObservableUpDownCounter};
+const char *const kTypeName[kNumTypes] = {"Counter", "Histogram", "ObservableGauge", "UpDownCounter", "ObservableCounter", "ObservableUpDownCounter"};
 // instrument-name selectors are regular expressions in this version ("*" = everything); only patterns
 // whose meaning is not in doubt
 const char *const kNamePat[] = {"abc", "a.*", "*", "zzz", "ab", "a[bx].", ".*s"};
 const char *const kUnitSel[] = {"", "ms", "s"};
 const MeterId kMeterSel[] = {{"", "", ""}, {"m", "1.0", "https://s/1"}, {"m", "", ""}, {"m", "2.0", ""}, {"n", "", ""}, {"m", "", "https://s/2"}, {"", "1.0", ""}};
-struct Spec { const char *name, *desc; sm::AggregationType agg; const char *keep; /* nullptr: no filter */ };
+struct Spec { const char *name, *desc; sm::AggregationType agg; const char *keep; /* nullptr: no filter */ bool cfg; /* histogram configuration: boundaries {0,10}, no min/max */ };
 const Spec kSpecs[] = {
-    {"", "", sm::AggregationType::kDefault, nullptr},
-    {"renamed", "newdesc", sm::AggregationType::kSum, nullptr},
-    {"", "", sm::AggregationType::kLastValue, "k1"},
-    {"hview", "", sm::AggregationType::kHistogram, "k2"},
-    {"dropped", "", sm::AggregationType::kDrop, nullptr},
+    {"", "", sm::AggregationType::kDefault, nullptr, false},
+    {"renamed", "newdesc", sm::AggregationType::kSum, nullptr, false},
+    {"", "", sm::AggregationType::kLastValue, "k1", false},
+    {"hview", "", sm::AggregationType::kHistogram, "k2", false},
+    {"dropped", "", sm::AggregationType::kDrop, nullptr, false},
+    {"hb", "", sm::AggregationType::kHistogram, nullptr, true},  // the view's aggregation comes with its own bucket boundaries
+    {"axy", "", sm::AggregationType::kDefault, nullptr, false},  // renames onto the name of another instrument (the histogram of MA / the up-down counter of MB)
 };
+const char *const kCfgKind = "hist[0,10]-nominmax";  // how a stream shaped by the configured histogram is named below
 struct ViewDef { int type, name, unit, meter, spec; };
-std::vector<ViewDef> g_single, g_pair, g_triple;
+std::vector<ViewDef> g_single, g_pair, g_pair_b, g_triple;
 
 std::string show(const ViewDef &v) {
   const MeterId &ms = kMeterSel[v.meter];
   const Spec &sp = kSpecs[v.spec];
-  return vf::sfmt("view{select %s name~'%s' unit'%s' meter('%s','%s','%s') -> name'%s' desc'%s' agg%d keep:%s}", kTypeName[v.type], kNamePat[v.name], kUnitSel[v.unit], ms.name,
-                  ms.version, ms.schema, sp.name, sp.desc, (int)sp.agg, sp.keep ? sp.keep : "*");
+  return vf::sfmt("view{select %s name~'%s' unit'%s' meter('%s','%s','%s') -> name'%s' desc'%s' agg%d%s keep:%s}", kTypeName[v.type], kNamePat[v.name], kUnitSel[v.unit], ms.name,
+                  ms.version, ms.schema, sp.name, sp.desc, (int)sp.agg, sp.cfg ? "(boundaries 0,10; no min/max)" : "", sp.keep ? sp.keep : "*");
 }
 
 void setup(vf::Options &o) {
@@ -74,10 +86,17 @@ void setup(vf::Options &o) {
           for (int m = 0; m < nm; ++m)
             for (int s = 0; s < ns; ++s) out.push_back({t, n, u, m, s});
   };
+  auto fill_from = [](std::vector<ViewDef> &out, std::vector<int> ts, std::vector<int> ns, std::vector<int> us, std::vector<int> ms, std::vector<int> ss) {
+    for (int t : ts) for (int n : ns) for (int u : us) for (int m : ms) for (int s : ss) out.push_back({t, n, u, m, s});
+  };
   // (types, name patterns, unit selectors, meter selectors, view specs): prefixes of the tables above
-  fill(g_single, 4, 7, 3, 7, 5);
+  fill(g_single, kNumTypes, 7, 3, 7, 7);
   if (o.thorough) { fill(g_pair, 4, 4, 2, 5, 5); fill(g_triple, 2, 2, 1, 3, 4); }
   else fill(g_pair, 3, 3, 1, 4, 4);
+  // second pair alphabet: the instrument types and view specs that are not in the first one (up-down counter, observable
+  // counter / up-down counter; configured histogram, rename onto another instrument's name) next to a few of the first
+  if (o.thorough) fill_from(g_pair_b, {0, 1, 2, 3, 4, 5}, {0, 1, 2}, {0}, {0, 1}, {0, 1, 2, 3, 4, 5, 6});
+  else fill_from(g_pair_b, {0, 1, 3, 4}, {0, 1}, {0}, {0}, {0, 2, 5, 6});
 }
 
 // ---- reference ---------------------------------------------------------------------------------------
@@ -103,6 +122,15 @@ const char *default_kind(sm::InstrumentType t) {
     default: return "sum";
   }
 }
+// how an exported stream's aggregation is named for the comparison: the point kind; a histogram with exactly the
+// boundaries / min-max setting of the configured view spec is told apart from every other histogram (which
+// boundaries a histogram without configuration has is not part of the statement)
+std::string got_kind(const Stream &s) {
+  std::string kind = s.kind == "sum-nonmono" ? "sum" : s.kind;
+  if (kind == "hist" && s.bounds == "[0,10]") kind += "[0,10]";
+  if (kind.compare(0, 4, "hist") == 0 && !s.minmax) kind += "-nominmax";
+  return kind;
+}
 // What a reader must see for instrument `i` shaped by view spec `sp` (nullptr: no view matched).
 struct Want { std::string name, desc, unit, kind, attrs; };
 Want shaped(const Inst &i, const Spec *sp, bool filter_applies) {
@@ -111,7 +139,7 @@ Want shaped(const Inst &i, const Spec *sp, bool filter_applies) {
   w.desc = sp && *sp->desc ? sp->desc : i.desc;
   w.unit = i.unit;
   sm::AggregationType a = sp ? sp->agg : sm::AggregationType::kDefault;
-  w.kind = a == sm::AggregationType::kDefault ? default_kind(i.type) : a == sm::AggregationType::kSum ? "sum" : a == sm::AggregationType::kHistogram ? "hist" : a == sm::AggregationType::kLastValue ? "last" : "drop";
+  w.kind = a == sm::AggregationType::kDefault ? default_kind(i.type) : a == sm::AggregationType::kSum ? "sum" : a == sm::AggregationType::kHistogram ? (sp->cfg ? kCfgKind : "hist") : a == sm::AggregationType::kLastValue ? "last" : "drop";
   const char *keep = sp && filter_applies ? sp->keep : nullptr;
   w.attrs = !keep ? "{k1=v1,k2=v2}" : !strcmp(keep, "k1") ? "{k1=v1}" : "{k2=v2}";
   return w;
@@ -140,9 +168,13 @@ std::vector<std::string> expected_for(const Inst &i, const std::vector<ViewDef> 
 // is not stated; identical streams of one instrument are compared as one.
 void dedupe(std::vector<std::string> &v) { v.erase(std::unique(v.begin(), v.end()), v.end()); }
 
-void observe13(mapi::ObserverResult r, void *) {
+// state: the Inst whose value is observed
+void observe_value(mapi::ObserverResult r, void *state) {
+  const Inst *inst = static_cast<const Inst *>(state);
   std::map<std::string, std::string> attrs = {{"k1", "v1"}, {"k2", "v2"}};
-  nostd::get<nostd::shared_ptr<mapi::ObserverResultT<int64_t>>>(r)->Observe(13, ot::common::KeyValueIterableView<std::map<std::string, std::string>>(attrs));
+  ot::common::KeyValueIterableView<std::map<std::string, std::string>> view(attrs);
+  if (nostd::holds_alternative<nostd::shared_ptr<mapi::ObserverResultT<int64_t>>>(r)) nostd::get<nostd::shared_ptr<mapi::ObserverResultT<int64_t>>>(r)->Observe(inst->value, view);
+  else nostd::get<nostd::shared_ptr<mapi::ObserverResultT<double>>>(r)->Observe((double)inst->value, view);
 }
 
 std::string join(const std::vector<std::string> &v) {
@@ -153,10 +185,16 @@ std::string join(const std::vector<std::string> &v) {
 
 void run(vf::Ctx &c) {
   std::vector<ViewDef> views;
-  int mode = c.pick("nviews", g_triple.empty() ? 3 : 4);
+  // 0: no view, 1: one view, 2: ordered pair (first alphabet), 3: ordered pair (second alphabet), 4: ordered triple (thorough)
+  int mode = c.pick("nviews", g_triple.empty() ? 4 : 5);
   if (mode == 1) views.push_back(c.pick_from("view", g_single));
   if (mode == 2) { views.push_back(c.pick_from("view", g_pair)); views.push_back(c.pick_from("view2", g_pair)); }
-  if (mode == 3) { views.push_back(c.pick_from("view", g_triple)); views.push_back(c.pick_from("view2", g_triple)); views.push_back(c.pick_from("view3", g_triple)); }
+  if (mode == 3) { views.push_back(c.pick_from("view", g_pair_b)); views.push_back(c.pick_from("view2", g_pair_b)); }
+  if (mode == 4) { views.push_back(c.pick_from("view", g_triple)); views.push_back(c.pick_from("view2", g_triple)); views.push_back(c.pick_from("view3", g_triple)); }
+  // Quick tier, first pair alphabet: its views select Counter / Histogram / ObservableGauge only, so the three instruments of
+  // the other types could only get their default stream; they are left out there (cost) - every single view and the second
+  // pair alphabet run against all seven, the thorough tier always does.
+  const int ninst = (mode == 2 && !c.thorough()) ? 4 : kNumInst;
 
   c.stage("setup");
   auto reader = std::make_shared<PullReader>();
@@ -168,9 +206,16 @@ void run(vf::Ctx &c) {
     std::unique_ptr<sm::AttributesProcessor> proc;
     if (sp.keep) proc.reset(new sm::FilteringAttributesProcessor(std::unordered_map<std::string, bool>{{sp.keep, true}}));
     else proc.reset(new sm::DefaultAttributesProcessor());
+    std::shared_ptr<sm::AggregationConfig> cfg;
+    if (sp.cfg) {
+      auto h = std::make_shared<sm::HistogramAggregationConfig>();
+      h->boundaries_ = {0.0, 10.0};
+      h->record_min_max_ = false;
+      cfg = h;
+    }
     mp.AddView(std::unique_ptr<sm::InstrumentSelector>(new sm::InstrumentSelector(kTypes[v.type], kNamePat[v.name], kUnitSel[v.unit])),
                std::unique_ptr<sm::MeterSelector>(new sm::MeterSelector(ms.name, ms.version, ms.schema)),
-               std::unique_ptr<sm::View>(new sm::View(sp.name, sp.desc, "", sp.agg, nullptr, std::move(proc))));
+               std::unique_ptr<sm::View>(new sm::View(sp.name, sp.desc, "", sp.agg, cfg, std::move(proc))));
     c.step();
   }
   c.stage("instruments");
@@ -181,24 +226,40 @@ void run(vf::Ctx &c) {
   auto h1 = meters[0]->CreateDoubleHistogram(kInst[1].name, kInst[1].desc, kInst[1].unit);
   auto c2 = meters[1]->CreateUInt64Counter(kInst[2].name, kInst[2].desc, kInst[2].unit);
   auto o3 = meters[1]->CreateInt64ObservableGauge(kInst[3].name, kInst[3].desc, kInst[3].unit);
+  nostd::unique_ptr<mapi::UpDownCounter<int64_t>> u4;
+  nostd::shared_ptr<mapi::ObservableInstrument> o5, o6;
+  if (ninst == kNumInst) {
+    u4 = meters[1]->CreateInt64UpDownCounter(kInst[4].name, kInst[4].desc, kInst[4].unit);
+    o5 = meters[0]->CreateInt64ObservableCounter(kInst[5].name, kInst[5].desc, kInst[5].unit);
+    o6 = meters[1]->CreateDoubleObservableUpDownCounter(kInst[6].name, kInst[6].desc, kInst[6].unit);
+  }
   c0->Add(kInst[0].value, attrs);
   h1->Record((double)kInst[1].value, attrs, ot::context::Context{});
   c2->Add(kInst[2].value, attrs);
-  o3->AddCallback(observe13, nullptr);
-  c.step(4);
+  o3->AddCallback(observe_value, const_cast<Inst *>(&kInst[3]));
+  if (ninst == kNumInst) {
+    u4->Add(kInst[4].value, attrs);
+    o5->AddCallback(observe_value, const_cast<Inst *>(&kInst[5]));
+    o6->AddCallback(observe_value, const_cast<Inst *>(&kInst[6]));
+  }
+  c.step(ninst);
   c.stage("collect");
   std::vector<Stream> streams = collect(*reader);
   c.step();
 
   // attribute every exported stream to its source instrument through (meter, measured value)
-  std::vector<std::string> got[4];
+  std::vector<std::string> got[kNumInst];
+  // the export order follows an unordered_map whose keys contain a heap address: sorted for the canonical form
+  std::vector<std::string> lines;
+  for (auto &s : streams) lines.push_back(s.canon());
+  std::sort(lines.begin(), lines.end());
   std::string all;
+  for (auto &l : lines) all += l + "\n";
   for (auto &s : streams) {
-    std::string kind = s.kind == "sum-nonmono" ? "sum" : s.kind;
-    all += s.canon() + "\n";
+    std::string kind = got_kind(s);
     if (kind == "drop" || kind == "empty") continue;  // see expected_for
     int src = -1;
-    for (int i = 0; i < 4; ++i) {
+    for (int i = 0; i < ninst; ++i) {
       const MeterId &m = kMeters[kInst[i].meter];
       std::string scope = std::string(m.name) + "|" + m.version + "|" + m.schema;
       std::string v = vf::sfmt("%d;", kInst[i].value);
@@ -206,20 +267,22 @@ void run(vf::Ctx &c) {
           (s.points[s.points.size() - v.size() - 1] == ':' || s.points[s.points.size() - v.size() - 1] == 's') && s.type == (int)kInst[i].type)
         src = i;
     }
-    std::string desc_views;
-    for (auto &v : views) desc_views += show(v) + " ";
-    c.check(src >= 0, "C19:view:unattributable-stream", "exported stream " + s.canon() + " belongs to no instrument; views: " + desc_views);
+    if (src < 0) {
+      std::string desc_views;
+      for (auto &v : views) desc_views += show(v) + " ";
+      c.fail("C19:view:unattributable-stream", "exported stream " + s.canon() + " belongs to no instrument; views: " + desc_views);
+    }
     std::string attrs_part = s.points.substr(0, s.points.find('}') + 1);
     got[src].push_back(s.name + "/" + s.desc + "/" + s.unit + "/" + kind + "/" + attrs_part);
   }
   std::string desc_views;
   for (auto &v : views) desc_views += show(v) + " ";
-  for (int i = 0; i < 4; ++i) {
+  for (int i = 0; i < ninst; ++i) {
     std::sort(got[i].begin(), got[i].end());
     std::vector<std::string> want = expected_for(kInst[i], views, 0);
     dedupe(want); dedupe(got[i]);
     if (got[i] == want) continue;
-    std::string where = vf::sfmt("instrument %s '%s' unit '%s' on meter ('%s','%s','%s'): exported %s, expected %s; views: ", kTypeName[std::find(kTypes, kTypes + 4, kInst[i].type) - kTypes],
+    std::string where = vf::sfmt("instrument %s '%s' unit '%s' on meter ('%s','%s','%s'): exported %s, expected %s; views: ", kTypeName[std::find(kTypes, kTypes + kNumTypes, kInst[i].type) - kTypes],
                                  kInst[i].name, kInst[i].unit, kMeters[kInst[i].meter].name, kMeters[kInst[i].meter].version, kMeters[kInst[i].meter].schema, join(got[i]).c_str(),
                                  join(want).c_str()) + desc_views;
     // is the exported set explained by a combination of already characterised deviations? (fewest first)
